@@ -169,6 +169,14 @@ CHECKS["C15"] = (
     "DESIGN.md 3/C15",
 )
 
+CHECKS["C05"] = (
+    "model_checking",
+    "exhaustive enumeration of catalogue method x supporting executor x complete product of argument domains (packed as the rows of one table through the real extend/project machinery) against a three-valued table of reference functions transcribed from the documentation",
+    "Every row of op_catalog.methods_table except _uniform (random) and _ngroup (no documented numbering) is modelled: 28 unary, 14 operator, 9 two-argument, 3 logical and 2 ternary numeric methods on the complete 10-value / 10x10 / 3x10x10 grids (null, negatives, zero, halves, 1e6; infinities for the is_* tests), string / set / map methods on a 6x6 string grid, 19 date and time methods on every day of 2019-12-25..2021-01-07 (year/leap/week boundaries) and day pairs, and 15 aggregates / 12 window functions on every value sequence of length <= 3 (thorough 4) over {NULL,1,2,3} or {NULL,True,False} as a group of its own; each on Pandas where the catalogue says 'y', SQLite where it says 'y' and Polars always (an exception from Polars is accepted); every specified cell must equal the documented value.",
+    "The reference table (mc/props/c05.py) is three-valued: value / NULL / unspecified; the unspecified set is listed in the evidence assumptions and counted. PostgreSQL flags cannot be executed here. Methods with no documented numbering (dayofweek, weekofyear) are compared between Pandas and Polars only.",
+    "DESIGN.md 3/C05",
+)
+
 NOT_YET = "check not built yet in this session (work in progress, see DESIGN.md section 3)"
 
 NOT_APPLICABLE = {
